@@ -25,7 +25,7 @@ pub static DEF: PropertyDef = PropertyDef {
            load_state, reset_state must succeed and the instance must be in lockstep with a fresh one. Both loaders: the run is repeated in the stream-json-parser build. \
            Non-trivial = the damaged document differed from the original and was rejected or loaded without a crash; distinct = hash of (document, damage).",
     assumptions: &["a damaged document that happens to load is not played (the property promises nothing about it)"],
-    runs_quick: 1600,
+    runs_quick: 5000,
     runs_thorough: 60000,
     exhaustive_note: "thorough: truncation at every byte (sliced over cases) and every JSON node x every node action for small documents",
     generate,
@@ -33,7 +33,7 @@ pub static DEF: PropertyDef = PropertyDef {
     must_hit: &["fault.truncate.fired", "fault.bitflip.fired", "fault.node.fired", "fault.extreme.fired", "fault.nestbomb.fired", "fault.foreign.fired", "fault.save_damage.rejected", "fault.reset_after_failed_load.fired"],
     timeout_s: 30,
     hang_class: Some("hang"),
-    sub_builds: &[("release+stream-json-parser", 800, 20000, false)],
+    sub_builds: &[("release+stream-json-parser", 2500, 20000, false)],
     stack_mb: 8,
 };
 
